@@ -16,6 +16,8 @@ EXPLANATION = (
     "ScionPath::local; (G) PathStrategy::predicate is Iterator::all over all policies of PathPolicy::predicate, and the "
     "blanket impl maps an evaluation error to `false`."
 )
+EXPLANATION_ADD = ' Additions: (GS-best-valid) every source of Some(path) in PathSet::best_path is behind check_path_expiry == Valid; (MUST-evaluable) PathPolicy::path_allowed answers Ok only after hops_from_path succeeded and hops_from_path never returns an empty, unexamined hop list.'
+EXPLANATION = EXPLANATION + EXPLANATION_ADD
 RESIDUAL = ["that the predicate's meaning is right (C16)", "src/dst of fetched paths (fetcher contract)",
             "histories: that an earlier-cached path is still the same object (value identity)"]
 ASSUMPTIONS = ["arc_swap::ArcSwap and scc::HashIndex return what was stored", "Vec::retain keeps exactly the elements for which the closure returns true"]
